@@ -427,6 +427,9 @@ pub fn spaces_mode<'a>(prop: &'a str, mode: Mode, deadline: Instant, threads: us
                 Op::Dealloc { sel: Sel::Newest },
                 Op::Dealloc { sel: Sel::Second },
                 Op::Dealloc { sel: Sel::Oldest },
+                // the typed twin (BumpAllocatorTyped::dealloc with a BumpBox)
+                Op::DeallocTyped { sel: Sel::Newest },
+                Op::DeallocTyped { sel: Sel::Second },
                 Op::Enter(Region::Scoped),
                 Op::Exit,
             ];
